@@ -28,9 +28,11 @@ func VerifC04_Loop() {
 	withIf := zzBool("if")
 	onTemplate := zzBool("template")
 	structRoot := zzBool("structroot")
+	exprRead := zzBool("exprread") // the item is also read through an expression
 
 	// the collection
 	var xs any
+	nilFirst := false
 	loops := true
 	switch kind {
 	case 0:
@@ -41,6 +43,7 @@ func VerifC04_Loop() {
 		if n >= 1 && zzBool("nilitem") {
 			a[0] = nil // an untyped nil element is an item like any other
 			items = append([]string{""}, items[1:]...)
+			nilFirst = true
 		}
 		xs = a
 	case 1:
@@ -92,10 +95,14 @@ func VerifC04_Loop() {
 		cond = ` v-if="` + varName + ` != 'skip'"`
 	}
 	var body string
+	inst := `[{{ i }}:{{ ` + varName + ` }}]`
+	if exprRead {
+		inst = `[{{ i }}:{{ ` + varName + ` }}{{ ` + varName + ` == nil ? '~' : '' }}]`
+	}
 	if onTemplate {
-		body = `<template v-for="` + form + `"` + cond + `><b>[{{ i }}:{{ ` + varName + ` }}]</b></template>`
+		body = `<template v-for="` + form + `"` + cond + `><b>` + inst + `</b></template>`
 	} else {
-		body = `<b v-for="` + form + `"` + cond + `>[{{ i }}:{{ ` + varName + ` }}]</b>`
+		body = `<b v-for="` + form + `"` + cond + `>` + inst + `</b>`
 	}
 	if withElse {
 		body += `<em v-else>EMPTY</em>`
@@ -135,7 +142,11 @@ func VerifC04_Loop() {
 		if indexForm {
 			idx = strconv.Itoa(j)
 		}
-		want.WriteString("[" + idx + ":" + item + "]")
+		mark := ""
+		if exprRead && nilFirst && j == 0 {
+			mark = "~"
+		}
+		want.WriteString("[" + idx + ":" + item + mark + "]")
 		produced++
 	}
 	wantElse := withElse && len(items) == 0
